@@ -552,6 +552,14 @@ def run(lines, out, args):
                     return (tuple(sorted(reg.lookupAll((IR,), IPy))), tuple(reg.subscriptions((IR,), IPy)), reg.lookup((IR,), IPy, ""),
                             tuple(sorted(reg.names((IR,), IPy))), tuple(reg.subscribers((ob,), IPy)))
 
+                # ... and about a key whose REQUIRED interface is re-based afterwards: an answer cached from inside the invalidation
+                # must be dropped by that change like any other (the lookup object must still be / again be a dependent of it)
+                IB1 = InterfaceClass("IB1", (Interface,), __module__="zi.gen")
+                IB2 = InterfaceClass("IB2", (Interface,), __module__="zi.gen")
+                IA_ = InterfaceClass("IA_", (IB1,), __module__="zi.gen")
+                IC_ = InterfaceClass("IC_", (Interface,), __module__="zi.gen")
+                fb1, fb2 = mkfac("for-IB1"), mkfac("for-IB2")
+
                 class Dying:
                     def __call__(self, *a):
                         return "dying"
@@ -559,6 +567,7 @@ def run(lines, out, args):
                     def __del__(self):
                         try:
                             seen.append(probe())
+                            reg.lookup((IA_,), IC_, "")
                         except Exception as e:  # noqa
                             seen.append("raised %r" % (e,))
                 f1 = Dying()
@@ -566,7 +575,9 @@ def run(lines, out, args):
                 base.subscribe((IR,), IP, f1)
                 base.register((IR,), IPy, "", fac1)
                 base.subscribe((IR,), IPy, fac1)
-                warm = (ask(reg, ep, ob), probe())
+                base.register((IB1,), IC_, "", fb1)
+                base.register((IB2,), IC_, "", fb2)
+                warm = (ask(reg, ep, ob), probe(), reg.lookup((IA_,), IC_, ""))
                 base.register((IR,), IPy, "", fac2)
                 base.unsubscribe((IR,), IPy, fac1)
                 base.subscribe((IR,), IPy, fac2)
@@ -587,6 +598,12 @@ def run(lines, out, args):
                            "registrations (changed before either call began) say %r" % (ep, seen, want))
                 elif probe() != want:
                     got = "FAIL: afterwards the registry answers %r, the registrations say %r" % (probe(), want)
+                else:
+                    IA_.__bases__ = (IB2,)
+                    late = reg.lookup((IA_,), IC_, "")
+                    if late is not fb2:
+                        got = ("FAIL: a lookup made by a destructor inside the cache invalidation of %s left an answer in the cache that a later "
+                               "change of the required interface's bases does not drop: %r, the registrations say %r" % (ep, late, fb2))
             elif scen == "hashhook":
                 who = f[3]
                 state = {"armed": False, "pool": [], "reg": None}
